@@ -1,8 +1,15 @@
 package main
 
 import (
+	"os"
+
 	"verifsim/chainsim"
 	"verifsim/core"
 )
 
-func main() { core.Main(chainsim.Engine{}) }
+func main() {
+	if len(os.Args) == 3 && os.Args[1] == "-reexec" {
+		os.Exit(chainsim.Reexec(os.Args[2]))
+	}
+	core.Main(chainsim.Engine{})
+}
